@@ -1,1 +1,192 @@
-From PV Require Import Args.Assemble.
+(* S for property C10: what the target list must be, stated without reference to how wcoll.c / opt.c
+   compute it: no buffers, no fuel, no state machine.  Relations over plain text.
+
+   Files.  The hosts of a file are the host expressions of its lines, in order.  A line is what stands
+   between two newlines.  An ordinary line gives the text before its first '#', without surrounding
+   blanks, unless that is empty.  A line that starts with '#' gives nothing, except the directive
+   '#include NAME' (first column, exactly one name), which stands for the hosts of the file NAME, looked up
+   in the directory of the file named on the command line unless NAME starts with / ./ or ../ .
+   A file that was already read for this command-line file (the file itself included) is skipped with a
+   warning.  A file that cannot be read is an error.
+
+   Command line.  The target list is the concatenation, in command-line order, of what the words of the -w
+   arguments give: '^F' the hosts of file F, '^-' (or the argument '-') the hosts of standard input, a word
+   starting with '-' nothing (it excludes), any other word itself.  If no word named a target, the file
+   named by WCOLL gives the list. *)
+From PV Require Export Args.Assemble.
+Local Open Scope N_scope.
+
+(* ---------- text ---------- *)
+(* the lines of a text: the pieces between newlines; a final newline ends the last line *)
+Definition text_lines (c : bytes) : list bytes :=
+  let ps := split_all 10 c in
+  match last ps [1] with [] => removelast ps | _ => ps end.
+
+Definition blank (b : N) : bool := (b =? 32) || (b =? 9).
+Definition trim (s : bytes) : bytes := rev (drop_while blank (rev (drop_while blank s))).
+(* the host expression of an ordinary line *)
+Definition entry (l : bytes) : bytes := trim (fst (split_at 35 l)).
+
+(* what separates the name of a directive from the keyword and from the end of the line *)
+Definition dsep (b : N) : bool := (b =? 32) || (b =? 9) || (b =? 13) || (b =? 10).
+Definition kw : bytes := [35;105;110;99;108;117;100;101]. (* "#include" *)
+(* l is the directive '#include g' *)
+Definition directive (l g : bytes) : Prop :=
+  exists pre post, l = kw ++ pre ++ g ++ post /\ forallb dsep pre = true /\ forallb dsep post = true /\
+                   g <> [] /\ forallb (fun b => negb (dsep b)) g = true.
+
+(* what a line stands for *)
+Inductive lkind := Gives (es : list bytes) (warnings : nat) | Includes (g : bytes).
+Inductive line_kind (l : bytes) : lkind -> Prop :=
+| K_entry : hd 0 l <> 35 -> line_kind l (Gives (match entry l with [] => [] | e => [e] end) 0)
+| K_comment : hd 0 l = 35 -> is_prefix kw l = false -> line_kind l (Gives [] 0)
+| K_malformed : is_prefix kw l = true -> (forall g, ~ directive l g) -> line_kind l (Gives [] 1)
+| K_directive g : directive l g -> line_kind l (Includes g).
+
+(* where an included name is looked up *)
+Definition taken_as_is (g : bytes) : bool :=
+  is_prefix [47] g || is_prefix [46;47] g || is_prefix [46;46;47] g.
+Definition locate (dir g : bytes) : bytes := if taken_as_is g then g else dir ++ [47] ++ g.
+
+(* outcome: Some (expressions, files seen, warnings), or None = error *)
+Definition outcome := option (list bytes * list bytes * nat).
+Definition and_then (es : list bytes) (w : nat) (o : outcome) : outcome :=
+  match o with Some (es2, seen, w2) => Some (es ++ es2, seen, (w + w2)%nat) | None => None end.
+
+Section FileSpec.
+Variable fs : fsys.
+Variable dir : bytes.
+
+(* reads ls seen o: the lines ls, read when the files in [seen] have been read already, give o *)
+Inductive reads : list bytes -> list bytes -> outcome -> Prop :=
+| Rd_nil seen : reads [] seen (Some ([], seen, 0%nat))
+| Rd_line l ls seen es w o :
+    line_kind l (Gives es w) -> reads ls seen o -> reads (l :: ls) seen (and_then es w o)
+| Rd_again l g ls seen o :
+    line_kind l (Includes g) -> In (locate dir g) seen ->
+    reads ls seen o -> reads (l :: ls) seen (and_then [] 1 o)
+| Rd_unreadable l g ls seen :
+    line_kind l (Includes g) -> ~ In (locate dir g) seen -> lookup fs (locate dir g) = None ->
+    reads (l :: ls) seen None
+| Rd_include_error l g ls seen c :
+    line_kind l (Includes g) -> ~ In (locate dir g) seen -> lookup fs (locate dir g) = Some c ->
+    reads (text_lines c) (locate dir g :: seen) None ->
+    reads (l :: ls) seen None
+| Rd_include l g ls seen c es1 seen1 w1 o :
+    line_kind l (Includes g) -> ~ In (locate dir g) seen -> lookup fs (locate dir g) = Some c ->
+    reads (text_lines c) (locate dir g :: seen) (Some (es1, seen1, w1)) ->
+    reads ls seen1 o ->
+    reads (l :: ls) seen (and_then es1 w1 o).
+End FileSpec.
+
+(* the directory part of a path and its last component, as relations on text *)
+Definition no_slash (s : bytes) : Prop := ~ In 47 s.
+Definition all_slash (s : bytes) : Prop := forall b, In b s -> b = 47.
+
+(* the hosts of the file named [file] on the command line: the file itself counts as seen, under the name
+   an #include in it would give it *)
+Definition file_hosts (fs : fsys) (dir self : bytes) (file : bytes) (o : outcome) : Prop :=
+  match lookup fs file with
+  | None => o = None
+  | Some c => reads fs dir (text_lines c) [self] o
+  end.
+(* the hosts of standard input: names are looked up in the current directory *)
+Definition stream_hosts (fs : fsys) (content : bytes) (o : outcome) : Prop :=
+  reads fs [46] (text_lines content) [] o.
+
+(* ---------- command line ---------- *)
+(* the words of a -w argument: the non-empty pieces between the commas that are not inside brackets *)
+Fixpoint pieces (s : bytes) (depth : Z) : list bytes :=
+  match s with
+  | [] => [[]]
+  | b :: r =>
+    if (b =? 44) && (depth =? 0)%Z then [] :: pieces r 0%Z
+    else match pieces r (if b =? 91 then (depth + 1)%Z else if b =? 93 then (depth - 1)%Z else depth) with
+         | p :: ps => (b :: p) :: ps
+         | [] => [[b]]
+         end
+  end.
+Definition words_of (arg : bytes) : list bytes :=
+  filter (fun p => match p with [] => false | _ => true end) (pieces (if beq arg [45] then [94;45] else arg) 0%Z).
+
+(* what a word is *)
+Inductive source :=
+| SFile (path : bytes)            (* ^path *)
+| SStdin                          (* ^-    *)
+| SExclFile (path : bytes)        (* -^path : excluded, but read *)
+| SExclStdin                      (* -^-   *)
+| SNothing                        (* -hosts: an exclusion *)
+| SHosts (e : bytes)              (* a host expression *)
+| SOther.                         (* a filter or an rcmd_type:user@hosts word: not C10's *)
+Definition source_of (w : bytes) : source :=
+  let excluded := is_prefix [45] w in
+  let body := drop_while is_space (if excluded then skipn 1 w else w) in
+  if is_prefix [94] body then
+    let path := skipn 1 body in
+    if beq path [45] then (if excluded then SExclStdin else SStdin)
+    else (if excluded then SExclFile path else SFile path)
+  else if is_prefix [47] body then SOther
+  else if excluded then SNothing
+  else if existsb (fun b => (b =? 58) || (b =? 64)) body then SOther
+  else SHosts body.
+Definition names_targets (w : bytes) : bool :=
+  match source_of w with SFile _ | SStdin | SHosts _ => true | _ => false end.
+
+Section CmdSpec.
+Variable fs : fsys.
+(* for every file that can be named: its directory and its own name as an include would spell it
+   (dirname and basename of POSIX; supplied by the theorems) *)
+Variable dir_of self_of : bytes -> bytes.
+
+Definition given (o : outcome) : option (list bytes * nat) :=
+  match o with Some (es, _, w) => Some (es, w) | None => None end.
+
+(* contributes stdin w r stdin': the word w, standard input holding stdin, gives r and leaves stdin' *)
+Inductive contributes (stdin : bytes) (w : bytes) : option (list bytes * nat) -> bytes -> Prop :=
+| C_hosts e : source_of w = SHosts e -> contributes stdin w (Some ([e], 0%nat)) stdin
+| C_nothing : source_of w = SNothing -> contributes stdin w (Some ([], 0%nat)) stdin
+| C_file p o : source_of w = SFile p -> file_hosts fs (dir_of p) (self_of p) p o -> contributes stdin w (given o) stdin
+| C_stdin o : source_of w = SStdin -> stream_hosts fs stdin o -> contributes stdin w (given o) []
+| C_exfile p o : source_of w = SExclFile p -> file_hosts fs (dir_of p) (self_of p) p o ->
+                 contributes stdin w (match given o with Some (_, wn) => Some ([], wn) | None => None end) stdin
+| C_exstdin o : source_of w = SExclStdin -> stream_hosts fs stdin o ->
+                contributes stdin w (match given o with Some (_, wn) => Some ([], wn) | None => None end) [].
+
+Definition join (a : list bytes * nat) (r : option (list bytes * nat)) : option (list bytes * nat) :=
+  match r with Some (es2, w2) => Some (fst a ++ es2, (snd a + w2)%nat) | None => None end.
+
+(* the words in order: concatenation; the first error is the result *)
+Inductive assembled : bytes -> list bytes -> option (list bytes * nat) -> bytes -> Prop :=
+| As_nil stdin : assembled stdin [] (Some ([], 0%nat)) stdin
+| As_cons stdin w ws a stdin1 r stdin2 :
+    contributes stdin w (Some a) stdin1 -> assembled stdin1 ws r stdin2 ->
+    assembled stdin (w :: ws) (join a r) stdin2
+| As_error stdin w ws stdin1 :
+    contributes stdin w None stdin1 -> assembled stdin (w :: ws) None stdin1.
+
+(* the target list of a command line with the -w arguments args *)
+Inductive target_list (stdin : bytes) (wcoll : option bytes) (args : list bytes) : option (list bytes * nat) -> Prop :=
+| T_given r stdin1 :
+    existsb names_targets (flat_map words_of args) = true ->
+    assembled stdin (flat_map words_of args) r stdin1 -> target_list stdin wcoll args r
+| T_error stdin1 :
+    assembled stdin (flat_map words_of args) None stdin1 -> target_list stdin wcoll args None
+| T_none a stdin1 :
+    existsb names_targets (flat_map words_of args) = false -> wcoll = None ->
+    assembled stdin (flat_map words_of args) (Some a) stdin1 -> target_list stdin wcoll args (Some a)
+| T_wcoll a stdin1 v r stdin2 :
+    existsb names_targets (flat_map words_of args) = false -> wcoll = Some v ->
+    assembled stdin (flat_map words_of args) (Some a) stdin1 ->
+    contributes stdin1 (94 :: v) r stdin2 ->
+    target_list stdin wcoll args (join a r).
+End CmdSpec.
+
+(* ---------- domain of the theorems ---------- *)
+(* text files (no NUL byte); a line that starts with "#include" is shorter than the 4096-byte path buffer
+   of wcoll.c less its terminator (host lines may have any length); paths of readable files are shorter
+   than PATH_MAX = 4096 *)
+Definition line_okb (l : bytes) : bool :=
+  negb (mem 0 l) && (negb (is_prefix kw l) || (N.of_nat (length l) <? 4095)).
+Definition text_okb (c : bytes) : bool := forallb line_okb (text_lines c).
+Definition D10 (fs : fsys) : bool :=
+  forallb (fun pc => (N.of_nat (length (fst pc)) <? 4096) && text_okb (snd pc)) fs.
